@@ -98,10 +98,13 @@ def _c16(prop, tier, replay_path):
             kind = json.load(fh).get("kind")
         if kind == "TestVerifCksim":
             return c15.check_c16_received(prop, tier, replay_path)
+        if kind == "TestVerifSdsim":
+            return nhfamily.check_c16_snapshotter(prop, tier, replay_path)
         return nhfamily.check_c16(prop, tier, replay_path)
     a = nhfamily.check_c16(prop, tier, None)
     b = c15.check_c16_received(prop, tier, None)
-    return 1 if 1 in (a, b) else max(a, b)
+    c = nhfamily.check_c16_snapshotter(prop, tier, None)
+    return 1 if 1 in (a, b, c) else max(a, b, c)
 
 
 CHECKS["C16"] = _c16
